@@ -72,9 +72,10 @@ func (self *Interpreter) letStatement(node ast.AnalyzedLetStatement) *value.Inte
 	// TODO: improve performance here (not so much deref)
 
 	// TODO: is this ok? is it required to dynamically cast a value in here?
-	newValue, i := value.DeepCast(*rhsVal, node.OptType, node.Range, false)
-	if i != nil {
-		return i
+	newValue, castError := value.DeepCast(*rhsVal, node.OptType, node.Range, false)
+	if castError != nil {
+		// a refused cast can be caught by the program
+		return value.NewThrowInterrupt(castError.Span, castError.Message())
 	}
 
 	// if i := self.valueIsCompatibleToType(*rhsVal, node.OptType, node.Range); i != nil {
